@@ -394,6 +394,13 @@ pub fn seed_ops(name: &str) -> Vec<PuOp> {
             v
         }
         "S5" => base(cap_fees()),
+        // a constant-product pool whose only liquidity provider is A (the owner holds none), after a fee-paying swap:
+        // A can drain it down to the locked minimum
+        "S7" => vec![
+            mk_pool("cp", &["uom", "uusd"], &[6, 6], std_fees(), None),
+            prov(A, "o.cp", &[("uom", E6), ("uusd", 2 * E6)]),
+            PuOp::Swap { u: B, pool: "o.cp".into(), offer: vec![("uom".into(), 300_000)], ask: "uusd".into(), slip: Some(5000), belief: None, recv: None },
+        ],
         // S2 / S3 with every pool created with its denoms (and decimals) listed in the opposite order
         "S2r" | "S3r" => base(if name == "S2r" { std_fees() } else { zero_fees() })
             .into_iter()
@@ -450,6 +457,10 @@ pub fn enabled(w: &World, pre: &PuObs, alpha: Alpha) -> Vec<PuOp> {
             ops.push(sw(A, id, d(0), (r(0) / 100).max(1), d(1), None, None));
             ops.push(sw(A, id, d(1), r(1) * 3 / 10 + 1, d(0), Some(5000), None));
             if full || swapfocus {
+                // dust offers under a belief price so generous that the promised minimum rounds to nothing
+                for (o, a, amt) in [(0usize, 1usize, 1u128), (1, 0, 1), (0, 1, 300)] {
+                    ops.push(PuOp::Swap { u: A, pool: id.into(), offer: vec![(d(o).into(), amt)], ask: d(a).into(), slip: Some(5000), belief: Some((1_000_000, 1)), recv: None });
+                }
                 ops.push(sw(A, id, d(0), 1, d(1), Some(5000), None));
                 ops.push(sw(B, id, d(1), (r(1) / 100).max(1), d(0), Some(5000), Some(A)));
             }
@@ -469,6 +480,12 @@ pub fn enabled(w: &World, pre: &PuObs, alpha: Alpha) -> Vec<PuOp> {
                 let odd = (r(0) / 100) | 1;
                 ops.push(pr(A, vec![(d(0).into(), odd)], None, None, None, None));
                 if full || swapfocus {
+                    // single-asset deposits of one and of two units, either side
+                    for (i, amt) in [(0usize, 1u128), (1, 1), (0, 2), (1, 2)] {
+                        ops.push(pr(A, vec![(d(i).into(), amt)], None, None, None, None));
+                    }
+                }
+                if full || swapfocus {
                     let even = ((r(1) / 100) | 1) + 1;
                     ops.push(pr(A, vec![(d(1).into(), even)], Some(DAY), None, None, None));
                 }
@@ -482,6 +499,8 @@ pub fn enabled(w: &World, pre: &PuObs, alpha: Alpha) -> Vec<PuOp> {
                 // dust deposit carrying the largest valid deposit tolerance (the only shape a stableswap pool accepts with one)
                 ops.push(pr(A, assets.iter().map(|c| (c.denom.clone(), 1u128)).collect(), None, None, None, Some(10_000)));
                 if n == 2 {
+                    // a deposit of fixed size, whatever the pool holds (many times the reserves of a drained pool)
+                    ops.push(pr(A, vec![(d(0).into(), 2_000_000), (d(1).into(), 3_000_000)], None, None, None, None));
                     // strongly one-sided two-asset deposits
                     ops.push(pr(A, vec![(d(0).into(), r(0) / 10 + 1), (d(1).into(), 1)], None, None, None, None));
                     ops.push(pr(A, vec![(d(0).into(), 1), (d(1).into(), r(1) / 10 + 1)], None, None, None, None));
